@@ -20,6 +20,9 @@ type app struct {
 	build func(v *aspgen.Val, lit *aspgen.Val) []*aspgen.Stmt
 	// noModel: the builtin is outside the modelled fragment (isinstance, json): oracle only, no correspondence case
 	noModel bool
+	// isinst: the type names of an isinstance application (correspondence case CIsInst of the direct stream), single = not a list of types
+	isinst []string
+	single bool
 }
 
 func r(e *aspgen.Expr) []*aspgen.Stmt { return []*aspgen.Stmt{aspgen.Assign("r", e)} }
@@ -91,9 +94,19 @@ func apps() []app {
 		}},
 		{name: "less-than", kind: "list", build: func(v, lit *aspgen.Val) []*aspgen.Stmt { return r(E(v, Bin("<", lit))) }},
 		{name: "slice", kind: "list", build: func(v, _ *aspgen.Val) []*aspgen.Stmt { return r(E(aspgen.SliceOf(v, aspgen.IntE(1), nil))) }},
-		{name: "isinstance", kind: "list", noModel: true, build: func(v, _ *aspgen.Val) []*aspgen.Stmt { return r(E(Call("isinstance", E(v), IdE("list")))) }},
+		{name: "isinstance", kind: "list", noModel: true, isinst: []string{"list"}, single: true, build: func(v, _ *aspgen.Val) []*aspgen.Stmt { return r(E(Call("isinstance", E(v), IdE("list")))) }},
+		{name: "isinstance", kind: "list", noModel: true, isinst: []string{"str", "list"}, build: func(v, _ *aspgen.Val) []*aspgen.Stmt {
+			return r(E(Call("isinstance", E(v), E(aspgen.List(IdE("str"), IdE("list"))))))
+		}},
+		{name: "isinstance", kind: "list", noModel: true, isinst: []string{"dict", "int"}, build: func(v, _ *aspgen.Val) []*aspgen.Stmt {
+			return r(E(Call("isinstance", E(v), E(aspgen.List(IdE("dict"), IdE("int"))))))
+		}},
+		{name: "isinstance", kind: "dict", noModel: true, isinst: []string{"str", "dict"}, build: func(v, _ *aspgen.Val) []*aspgen.Stmt {
+			return r(E(Call("isinstance", E(v), E(aspgen.List(IdE("str"), IdE("dict"))))))
+		}},
+		{name: "isinstance", kind: "dict", noModel: true, isinst: []string{"list"}, single: true, build: func(v, _ *aspgen.Val) []*aspgen.Stmt { return r(E(Call("isinstance", E(v), IdE("list")))) }},
 		{name: "json", kind: "list", noModel: true, build: func(v, _ *aspgen.Val) []*aspgen.Stmt { return r(E(Call("json", E(v)))) }},
-		{name: "isinstance", kind: "dict", noModel: true, build: func(v, _ *aspgen.Val) []*aspgen.Stmt { return r(E(Call("isinstance", E(v), IdE("dict")))) }},
+		{name: "isinstance", kind: "dict", noModel: true, isinst: []string{"dict"}, single: true, build: func(v, _ *aspgen.Val) []*aspgen.Stmt { return r(E(Call("isinstance", E(v), IdE("dict")))) }},
 		{name: "json", kind: "dict", noModel: true, build: func(v, _ *aspgen.Val) []*aspgen.Stmt { return r(E(Call("json", E(v)))) }},
 		{name: "less-than-operand", kind: "list", build: func(v, lit *aspgen.Val) []*aspgen.Stmt { return r(E(lit, Bin("<", v))) }},
 
@@ -193,7 +206,7 @@ func evalCase(args ...string) string { return lib.App("CEval", lib.App("CAsp", a
 func main() {
 	gologging.SetLevel(gologging.CRITICAL, "plz")
 	lib.Main("C18", func(c *lib.Ctx) {
-		c.Model("From PlzV Require Import Model.C16_Syntax Model.C16_Eval Model.C16 Model.C18.", "C18.case", "C18.check")
+		c.Model("From PlzV Require Import Model.C16_Syntax Model.C16_Eval Model.C16 Model.C18_Config Model.C18.", "C18.case", "C18.check")
 		c.Rule("every application of a builtin or operator that takes a list or dict (sorted reversed enumerate any all zip min max map filter reduce len in + == != * " +
 			"comprehension for join index slice str truth unpack < keys values items get | isinstance json) to generated values (int/str/nested lists, empty list, dicts with list and dict " +
 			"members): interpreted by the real asp once with the value defined in the BUILD file and once imported through subinclude. Follow-up streams: (sum) the same applications to " +
@@ -234,6 +247,21 @@ func main() {
 						c.Hist("outcome", "both-raise")
 					} else {
 						c.Hist("outcome", "same")
+					}
+					if a.isinst != nil && rl.Err == "" && ri.Err == "" {
+						// isinstance is not part of the shared evaluator: its own model (Model/C18.v isinstance_model)
+						for _, x := range []struct {
+							imported bool
+							res      aspgen.Result
+						}{{false, rl}, {true, ri}} {
+							b, ok := x.res.Final["r"].(bool)
+							if !ok {
+								continue
+							}
+							c.Case(lib.App("CIsInst", lib.Bool(x.imported), aspgen.CoqExpr(aspgen.E(lit)), lib.StrList(a.isinst), lib.Bool(a.single), lib.Bool(b)),
+								map[string]any{"value": aspgen.SrcVal(lit), "application": aspgen.Source(body), "imported": x.imported, "r": b},
+								fmt.Sprintf("isinst:%v:%s", x.imported, aspgen.Source(local)), true)
+						}
 					}
 					if a.noModel {
 						return
